@@ -77,8 +77,7 @@ def descs(tier):
 
 def bounded(tier, seed, rep):
     from bounded import leancheck
-    leancheck.check(rep, "lean/Encoders.lean", "C04.enc_iff_connected")
-    leancheck.check(rep, "lean/Encoders.lean", "C04T.enc_iff_tree")
+    leancheck.check(rep, "lean/Encoders.lean", ["C04.enc_iff_connected", "C04T.enc_iff_tree"])
     from bounded import graphprops
     emission.run_parallel(rep, PROP, MOD, list(graphprops.with_builds(list(descs(tier)) + graphprops.deep_descs(PROP, tier))))
 
